@@ -268,8 +268,6 @@ class World:
             a, b = self.pick_core(st["a"]), self.pick_core(st["b"])
             if a is None:
                 return False
-            if a == b and m.stationary:
-                return False  # (a self-swap with stationary blocks is refused by armi half-way: not generated)
             if not m.stationary_compatible(a, b):
                 return self.expect_refusal(k, st, lambda: fh.swapAssemblies(self.h2o[a], self.h2o[b]))
             fh.swapAssemblies(self.h2o[a], self.h2o[b])
@@ -279,8 +277,6 @@ class World:
             hs = []
             for i in st["idx"]:
                 h = None if i is None else self.pick_core(i)
-                if h is not None and h in hs and m.stationary:
-                    h = None  # duplicates only without stationary blocks (see swap)
                 hs.append(h)
             if hs[0] is None or len([h for h in hs if h is not None]) < 2:
                 return False
